@@ -184,13 +184,19 @@ _STRING_ACTION = _norm(r"""{ strncpy(utap_lval.string, utap_text, MAXLEN); utap_
 _NL_ACTION = _norm(r"""{ tracker.newline(ch, yyleng); if ((syntax & syntax_t::PROPERTY) != 0) return '\n'; }""")
 _CRLF_ACTION = _norm(r"""{ tracker.newline(ch, yyleng / 2); if ((syntax & syntax_t::PROPERTY) != 0) return '\n'; }""")
 _CONT_ACTION = _norm(r"""{ tracker.newline(ch, 1); }""")
-_COMMENT_BLOCK = [_norm(x) for x in [
-    r"\n           { tracker.newline(ch, 1); }",
-    r'"*/"         { BEGIN(INITIAL); }',
-    r'<<EOF>>      { BEGIN(INITIAL); yyerror("$Comment_not_closed"); return 0; }',
-    r'"EXPECT:"[^\t \n]* { ch->handle_expect(utap_text+7); }',
-    r".            /* ignore (multiline comments)*/",
-]]
+def _comment_block(expect_pattern):
+    return [_norm(x) for x in [
+        r"\n           { tracker.newline(ch, 1); }",
+        r'"*/"         { BEGIN(INITIAL); }',
+        r'<<EOF>>      { BEGIN(INITIAL); yyerror("$Comment_not_closed"); return 0; }',
+        expect_pattern + r' { ch->handle_expect(utap_text+7); }',
+        r".            /* ignore (multiline comments)*/",
+    ]]
+
+
+# the EXPECT rule as it is, and the repaired variant whose value stops before a closing `*/` (proposed_fixes/C09-expect-comment.diff)
+_COMMENT_BLOCK = _comment_block(r'"EXPECT:"[^\t \n]*')
+_COMMENT_BLOCK_FIXED = _comment_block(r'"EXPECT:"([^\t \n*]|"*"+[^\t \n*/])*')
 
 
 def _old_action(tok):
@@ -214,10 +220,13 @@ def lexer_rules(repo):
         if "%option " + opt not in defs:
             raise TranslateError("lexer.l: %%option %s missing" % opt)
     out = []   # (kind, lit, tok)
+    expect_fixed = []
     for pat, action in _split_rules(rules_text):
         if isinstance(action, list):
-            if pat != "<comment>{" or [_norm(x) for x in action] != _COMMENT_BLOCK:
+            blk = [_norm(x) for x in action]
+            if pat != "<comment>{" or blk not in (_COMMENT_BLOCK, _COMMENT_BLOCK_FIXED):
                 raise TranslateError("lexer.l: <comment> block changed: %r" % (action,))
+            expect_fixed.append(blk == _COMMENT_BLOCK_FIXED)
             continue   # modelled by Lex.commentStep; the rule that opens it is the "/*" rule below
         na = _norm(action)
         m = re.fullmatch(r"\{return(T_[A-Z0-9_]+|'(?:\\.|[^\\'])');\}", na)
@@ -286,7 +295,9 @@ def lexer_rules(repo):
                     raise TranslateError("libparser.h: syntax_t term %r" % t)
                 v |= bits[t]
             bits[name] = v
-    return out, maxlen, bits
+    if len(expect_fixed) != 1:
+        raise TranslateError("lexer.l: expected exactly one <comment> block")
+    return out, maxlen, bits, expect_fixed[0]
 
 
 # ------------------------------------------------------------------------------------------------------------------
@@ -453,7 +464,7 @@ def _chs(s):
 
 
 def tables(repo):
-    rules, maxlen, bits = lexer_rules(repo)
+    rules, maxlen, bits, expect_fixed = lexer_rules(repo)
     kws = keywords(repo, bits)
     g = grammar(repo)
     toks = []
@@ -475,7 +486,7 @@ def tables(repo):
             tid(t)
     for t, _ in g["binary"] + g["unary"] + g["assign"] + g["nontype"]:
         tid(t)
-    return {"rules": rules, "maxlen": maxlen, "bits": bits, "keywords": kws, "grammar": g, "toks": toks}
+    return {"rules": rules, "maxlen": maxlen, "bits": bits, "keywords": kws, "grammar": g, "toks": toks, "expect_fixed": expect_fixed}
 
 
 def _ident(name):
@@ -510,6 +521,8 @@ def lean_text(repo):
         o.append("def K_%s : Nat := %d" % (k, i))
     o.append("")
     o.append("def maxLen : Nat := %d" % t["maxlen"])
+    o.append("/-- the EXPECT rule of the <comment> start condition is the variant that stops before a closing `*/` -/")
+    o.append("def expectStopsBeforeClose : Bool := %s" % ("true" if t["expect_fixed"] else "false"))
     for b in ("OLD", "NEW", "PROPERTY", "GUIDING", "TIGA", "PROB"):
         if b not in t["bits"]:
             raise TranslateError("syntax_t bit %s missing" % b)
